@@ -383,14 +383,6 @@ def one_case(ctx, cls_name, n, t, preserve, fam, v, info=None, do_tie=True, do_o
     try:
         g, levels = trace(cls_name, v, t, preserve, build=build)
     except Exception as e:  # raised by qclib/qiskit while building the definition of a valid input
-        if cls_name == "ucge" and preserve:
-            ctx.count("ucge+preserve raises (outside the property)")
-            if not any("UCGEInitialize with preserve_previous" in s for s in ctx.notes):
-                ctx.notes.append("UCGEInitialize with preserve_previous=True raises %s when _simplify shortened the multiplexer "
-                                 "(mux[r_gate] / ctrl_state use the unsimplified sizes); the property states preserve for the "
-                                 "plain class only, so this is recorded, not failed. Example: n=%d t=%d family=%s"
-                                 % (type(e).__name__, n, t, fam))
-            return
         ctx.fail(f"{cls_name}:exception:{type(e).__name__}:{fam}:n={n}:pres={int(preserve)}",
                  f"construction raised {e!r}", rep)
         return
@@ -415,25 +407,17 @@ def one_case(ctx, cls_name, n, t, preserve, fam, v, info=None, do_tie=True, do_o
         return
     u = Operator(g.definition).data
     err = float(np.abs(u[:, t] - v).max())
-    if err > tol and cls_name == "ucge" and preserve:
-        ctx.count("ucge+preserve wrong column t (outside the property)")
-        if not any("UCGEInitialize with preserve_previous=True prepares a wrong" in s for s in ctx.notes):
-            ctx.notes.append("UCGEInitialize with preserve_previous=True prepares a wrong state when _simplify shortened the "
-                             "multiplexer (mux[r_gate] then indexes the simplified list); outside the property (preserve is "
-                             "stated for the plain class), recorded only. Example: n=%d t=%d family=%s err=%.2e"
-                             % (n, t, fam, err))
-        return
     if err > tol:
         ctx.fail(key, f"column {t} of Operator(definition) differs from the vector by {err:.3e}", dict(rep, observed_err=err))
         return
-    if preserve and cls_name == "ucg" and not np.any(v[:t]):
+    if preserve and not np.any(v[:t]):       # both classes (UCGE: F-C12-2, the preserved block comes out of the full multiplexer)
         for j in range(t):
             col = u[:, j].copy()
             ph = col[j]
             col[j] = 0
             e2 = max(float(np.abs(col).max()), abs(abs(ph) - 1))
             if e2 > 1e-7:
-                ctx.fail(f"ucg:preserve:{fam}:n={n}:t={t}:j={j}:{h:x}",
+                ctx.fail(f"{cls_name}:preserve:{fam}:n={n}:t={t}:j={j}:{h:x}",
                          f"basis state {j} < t={t} is not mapped to itself up to a phase (deviation {e2:.3e})",
                          dict(rep, column=j, observed_err=e2))
                 return
@@ -550,7 +534,7 @@ def boundary_run(ctx, r):
                      "is 1e-4 there")
     for n, t, L, v, fam, counter in child_boundary_cases(ctx, r):
         v = v / np.linalg.norm(v)
-        for cls_name, preserve in (("ucg", False), ("ucge", False), ("ucg", True)):
+        for cls_name, preserve in (("ucg", False), ("ucge", False), ("ucg", True), ("ucge", True)):
             w = v
             if preserve:
                 # preserve_previous is stated for vectors supported on indices >= t
@@ -1047,7 +1031,7 @@ def _diversity_element_types(ctx, pr, r):
             integral = dform in ("int-list", "i64", "i32")
             realform = dform in ("f64", "f32", "list-float", "list-npf32", "list-npf64", "f64-negzero")
             kind = "basis" if integral or n == 1 else "real" if realform else "complex"
-            for cls_name, preserve in (("ucg", False), ("ucge", False), ("ucg", True)):
+            for cls_name, preserve in (("ucg", False), ("ucge", False), ("ucg", True), ("ucge", True)):
                 v = _div_dyadic(pr, n, kind)
                 if n == 1 and dform in ("c128", "c64", "list", "tuple", "list-npc64", "list-npc128", "list-mixed", "c128-negzero"):
                     v = v * pr.choice([1j, -1j, -1])
@@ -1108,7 +1092,7 @@ def _diversity_scale(ctx, pr, r):
                 if n == 4 and pr.random() < 0.5:
                     continue
                 v = _norm(v)
-                for cls_name, preserve in (("ucg", False), ("ucge", False), ("ucg", True)):
+                for cls_name, preserve in (("ucg", False), ("ucge", False), ("ucg", True), ("ucge", True)):
                     w = v
                     if preserve:
                         w = v.copy()
@@ -1154,7 +1138,7 @@ def _diversity_phase(ctx, pr, r):
                         z = phv if phv is not None else np.exp(1j * r.uniform(0.3, 6.0))
                         v[(2 * k + 1) * B:(2 * k + 2) * B] = z * block(pr.choice(["pos", kind]), B)
                         v = _norm(v)
-                        cfgs = [("ucg", False), ("ucge", False), ("ucg", True)]
+                        cfgs = [("ucg", False), ("ucge", False), ("ucg", True), ("ucge", True)]
                         if n >= 3:
                             cfgs = cfgs[:2] + ([cfgs[2]] if pr.random() < 0.5 else []) if n == 3 else [pr.choice(cfgs[:2]), cfgs[2]]
                         for cls_name, preserve in cfgs:
@@ -1179,7 +1163,7 @@ def _diversity_phase(ctx, pr, r):
             for gname, gph in (("-1", -1), ("i", 1j), ("-i", -1j)):
                 for kind in (pr.choice(["pos", "real"]),):
                     v = _norm(gph * block(kind, N))
-                    for cls_name, preserve in (("ucg", False), ("ucge", False), ("ucg", True)):
+                    for cls_name, preserve in (("ucg", False), ("ucge", False), ("ucg", True), ("ucge", True)):
                         w = v
                         if preserve:
                             if t == 0 and n > 1:
@@ -1199,7 +1183,7 @@ def _diversity_phase(ctx, pr, r):
                         continue
                     v = np.zeros(N, dtype=complex)
                     v[j] = phv if phv is not None else np.exp(1j * r.uniform(0.3, 6.0))
-                    cfgs = [("ucg", False), ("ucge", False), ("ucg", True)]
+                    cfgs = [("ucg", False), ("ucge", False), ("ucg", True), ("ucge", True)]
                     for cls_name, preserve in (cfgs if n <= 1 else [pr.choice(cfgs[:2]), cfgs[2]]):
                         dform = pr.choice(["c128", "list-mixed", "c128-negzero", "tuple"])
                         if _diversity_case(ctx, cls_name, n, t, preserve, v, {"gform": "ctor", "dform": dform, "oform": "full"},
